@@ -25,24 +25,7 @@ FourCfg == [ budget |-> Budget,
 
 MCfg == IF Many THEN ManyCfg ELSE FourCfg
 
-(* value domains: boundary values of every type, as element octets *)
-Vals(t) ==
-  CASE t = "BOOL"  -> << <<0>>, <<255>>, <<1>> >>
-    [] t = "SINT"  -> << <<1>>, <<127>>, <<128>>, <<255>> >>
-    [] t = "USINT" -> << <<1>>, <<200>>, <<127>>, <<255>> >>
-    [] t = "INT"   -> << <<1, 0>>, <<255, 127>>, <<0, 128>>, <<255, 255>> >>
-    [] t = "UINT"  -> << <<1, 0>>, <<64, 156>>, <<255, 127>>, <<255, 255>> >>
-    [] t = "DINT"  -> << <<1, 0, 0, 0>>, <<255, 255, 255, 127>>, <<0, 0, 0, 128>>, <<255, 255, 255, 255>> >>
-    [] t = "UDINT" -> << <<1, 0, 0, 0>>, <<0, 94, 208, 178>>, <<255, 255, 255, 127>>, <<255, 255, 255, 255>> >>
-    [] t = "LINT"  -> << <<1, 0, 0, 0, 0, 0, 0, 0>>, <<255, 255, 255, 255, 255, 255, 255, 127>>,
-                         <<0, 0, 0, 0, 0, 0, 0, 128>>, <<255, 255, 255, 255, 255, 255, 255, 255>> >>
-    [] t = "ULINT" -> << <<1, 0, 0, 0, 0, 0, 0, 0>>, <<0, 0, 0, 0, 1, 0, 0, 128>>,
-                         <<255, 255, 255, 255, 255, 255, 255, 127>>, <<255, 255, 255, 255, 255, 255, 255, 255>> >>
-    [] t = "REAL"  -> << <<0, 0, 128, 63>>, <<0, 0, 128, 191>>, <<0, 0, 32, 64>>, <<255, 255, 127, 127>> >>
-    [] t = "LREAL" -> << <<0, 0, 0, 0, 0, 0, 240, 63>>, <<0, 0, 0, 0, 0, 0, 240, 191>>, <<0, 0, 0, 0, 0, 0, 4, 64>>,
-                         <<255, 255, 255, 255, 255, 255, 239, 127>> >>
-    [] t = "SSTRING" -> << <<97>>, <<97, 98>>, <<>>, <<97, 98, 99>> >>
-    [] t = "STRING"  -> << <<97>>, <<97, 98>>, <<>>, <<97, 98, 99>> >>
+Vals(t) == BVals(t)
 
 NV == IF Rich THEN 4 ELSE 2
 \* n values starting at rotation s
